@@ -43,9 +43,35 @@ TECHNIQUE = 'runtime monitoring: differential oracle over seeded call histories 
 ALL_FAMILIES = dict(D.FAMILIES, **D.EXTRA_FAMILIES)
 
 
+ALT_XSD = f'''<xs:schema xmlns:xs="{D.XS}">
+<xs:complexType name="Base"><xs:sequence><xs:element name="id" type="xs:string"/></xs:sequence><xs:attribute name="kind" type="xs:string"/></xs:complexType>
+<xs:complexType name="Ext"><xs:complexContent><xs:extension base="Base"><xs:sequence><xs:element name="extra" type="xs:string"/>
+  </xs:sequence></xs:extension></xs:complexContent></xs:complexType>
+<xs:element name="root"><xs:complexType><xs:sequence><xs:element name="item" type="Base" maxOccurs="unbounded">
+  <xs:alternative test="@kind='ext'" type="Ext"/></xs:element></xs:sequence></xs:complexType>
+<xs:unique name="u"><xs:selector xpath=".//extra"/><xs:field xpath="."/></xs:unique>
+<xs:key name="k"><xs:selector xpath="item"/><xs:field xpath="id"/></xs:key></xs:element></xs:schema>'''
+
+
+def build_alt_pool(rng):
+    """XSD 1.1: children that exist only through a type alternative or through xsi:type, under identity constraints of the
+    parent: what one document makes the schema learn about the effective types must not change the next one's result."""
+    pool = []
+    for n in range(10):
+        items = []
+        for i in range(rng.randint(1, 3)):
+            how = rng.choice(('plain', 'alt', 'xsi', 'alt'))
+            extra = f'<extra>{rng.choice("xy")}</extra>' if how != 'plain' else ''
+            attrs = {'plain': '', 'alt': ' kind="ext"', 'xsi': ' xsi:type="Ext"'}[how]
+            items.append(f'<item{attrs}><id>{rng.choice("abc")}{i}</id>{extra}</item>')
+        pool.append((f'alt{n}', f'<root xmlns:xsi="{D.XSI}">' + ''.join(items) + '</root>', None))
+    return pool
+
+
 def plan(tier, seed):
     nh = 14 if tier == 'quick' else 60
-    specs = []
+    specs = [{'kind': 'hist', 'family': 'alt', 'version': '1.1', 'histories': nh, 'part': part, 'length': 20 if tier == 'quick' else 50}
+             for part in range(2)]
     for fam in ALL_FAMILIES:
         for v in ('1.0', '1.1'):
             for part in range(2 if tier == 'quick' else 4):
@@ -306,10 +332,10 @@ def run_shard(spec, res):
     xmlschema = env.activate_repo()
     fam, version = spec['family'], spec['version']
     cls = xmlschema.XMLSchema10 if version == '1.0' else xmlschema.XMLSchema11
-    xsd = D.family_xsd(fam, version)
+    xsd = ALT_XSD if fam == 'alt' else D.family_xsd(fam, version)
     rng = env.rng_for(PROPERTY, spec['tier'], spec['seed'], fam, version, spec['part'])
     failpoint = Failpoint(env.VERIF_REPO)
-    pool = build_pool(fam, rng)
+    pool = build_alt_pool(rng) if fam == 'alt' else build_pool(fam, rng)
     baseline = {}
 
     def fresh_result(op, i, arg):
@@ -379,7 +405,7 @@ def replay(case):
     xmlschema = env.activate_repo()
     fam, version = case['family'], case['version']
     cls = xmlschema.XMLSchema10 if version == '1.0' else xmlschema.XMLSchema11
-    xsd = D.family_xsd(fam, version)
+    xsd = ALT_XSD if fam == 'alt' else D.family_xsd(fam, version)
     failpoint = Failpoint(env.VERIF_REPO)
     schema = cls(xsd)
     bad = False
